@@ -284,7 +284,26 @@ class Engine:
         methods = {}
         for m in n.body:
           if isinstance(m, ast.FunctionDef):
-            methods[m.name] = extract.Extracted(relpath, f'{name}.{m.name}').funcv()
+            fv = extract.Extracted(relpath, f'{name}.{m.name}').funcv()
+            mdecs = [ast.unparse(d) for d in m.decorator_list]
+            if 'classmethod' in mdecs:
+              fv = ClassMethodV(fv)
+            elif 'staticmethod' in mdecs:
+              fv = StaticMethodV(fv)
+            elif 'property' in mdecs:
+              fv = PropertyV(fv)
+            elif any(d.startswith('abc.') for d in mdecs):
+              continue
+            methods[m.name] = fv
+        bases = []
+        for b in n.bases:
+          if isinstance(b, ast.Name):
+            try:
+              bv = ctx.lookup(b.id)
+              if isinstance(bv, ClassModel):
+                bases.append(bv)
+            except KeyError:
+              pass
         fields = None
         decs = [ast.unparse(d) for d in n.decorator_list]
         if any('dataclass' in d for d in decs):
@@ -295,7 +314,11 @@ class Engine:
                 fields.append((m.target.id, core._NODEFAULT))
               else:
                 fields.append((m.target.id, self._eval_module_expr(ctx, relpath, m.value)))
-        return (ClassModel(name, methods, fields=fields),)
+        cm = ClassModel(name, methods, fields=fields, bases=tuple(bases))
+        for mv in methods.values():
+          if isinstance(mv, ClassMethodV):
+            mv.cls = cm
+        return (cm,)
       if isinstance(n, ast.Assign):
         for t in n.targets:
           if isinstance(t, ast.Name) and t.id == name:
@@ -979,7 +1002,7 @@ class Engine:
       recv = self.eval(ctx, e.func.value)
       eval_args()
       ctx.lineno = e.lineno
-      if isinstance(recv, (Module, ClassModel)):
+      if isinstance(recv, (Module, ClassModel, SrcModule)):
         f = recv.getattr(ctx, e.func.attr)
         return self.call_value(ctx, f, args, kwargs)
       return self.call_method(ctx, recv, e.func.attr, args, kwargs)
@@ -2127,3 +2150,27 @@ for _n in ['ValueError', 'KeyError', 'IndexError', 'TypeError', 'StopIteration',
            'IOError', 'Exception', 'AttributeError', 'FileNotFoundError',
            'ZeroDivisionError', 'LookupError', 'NameError', 'UnboundLocalError']:
   BUILTINS[_n] = ExcClass(_n)
+
+
+class SrcModule(Val):
+  """A module of /repo seen from another module (`from fedjax.core import util`):
+  attribute access resolves functions/classes/constants from that file's source."""
+
+  def __init__(self, relpath, overrides=None):
+    self.relpath = relpath
+    self.overrides = dict(overrides or {})
+
+  def getattr(self, ctx, name):
+    if name in self.overrides:
+      return self.overrides[name]
+    key = (self.relpath, name)
+    eng = ctx.engine
+    if key not in eng._gcache:
+      v = eng._resolve_in(ctx, self.relpath, name)
+      if v is None:
+        raise Unsupported(f'{self.relpath} has no module-level name {name}')
+      eng._gcache[key] = v
+    return eng._gcache[key][0]
+
+  def method(self, ctx, name, args, kwargs):
+    return ctx.engine.call_value(ctx, self.getattr(ctx, name), args, kwargs)
